@@ -50,7 +50,7 @@ KfAfter(o) ==
   [stale   |-> (kf.stale \cup StaleBy(o)) \ (IF o.op = "DelStmt" /\ o.all THEN {o.stmt.name} ELSE {}),
    \* the multi-cut removes the wrong conditions/actions or crashes half-way: from here on the
    \* program held by the code is unknown, the rest of the trace is not judged
-   dead    |-> kf.dead \/ MultiCut(o),
+   dead    |-> kf.dead \/ MultiCut(o) \/ (MustRefuse(P, o) /\ Trace[l].res = "ok"),
    extsets |-> IF ExtCollision(o) THEN kf.extsets \cup {o.name}
                ELSE IF (o.op = "AddSet" /\ o.replace) \/ (o.op = "DelSet" /\ o.all) THEN kf.extsets \ {o.name}
                ELSE kf.extsets,
@@ -72,20 +72,29 @@ TReset == /\ IsEvent("Reset")
    conformance gap (no action matches), except after the program has been corrupted by the
    recorded finding KF-C10-delstmt-multi (kf.dead). *)
 TCfg == /\ IsEvent("Cfg")
-        /\ LET o == JOp(Trace[l].op) IN
+        /\ LET o == JOp(Trace[l].op)
+               refused == Trace[l].res \notin {"ok", "panic"}
+           IN
              /\ kf.dead \/ Assert(Valid(P, o), <<"schedule holds an operation the model considers invalid", o>>)
-             /\ Trace[l].res \in {"ok", "panic"} \/ kf.dead
-             /\ P' = IF kf.dead /\ ~Valid(P, o) THEN P ELSE Apply(P, o)
+             /\ Trace[l].res \in {"ok", "panic"} \/ kf.dead \/ MustRefuse(P, o)
+             /\ P' = IF kf.dead /\ ~Valid(P, o) THEN P
+                     \* KF-C10-delpol-assigned: the call that must be refused was accepted; the policy
+                     \* is gone but the assignment still lists it (judged by C10_ReadBack_NoDangling)
+                     ELSE IF MustRefuse(P, o) /\ ~refused THEN [P EXCEPT !.pols = Drop(@, {o.name})]
+                     ELSE IF refused THEN P
+                     ELSE Apply(P, o)
              /\ kf' = KfAfter(o)
         /\ last' = Trace[l] /\ exp' = NoExp /\ UNCHANGED via
 
 TEval == /\ IsEvent("Eval")
-         /\ LET o == Trace[l].op
-                e1 == Eval(P, o.route, o.d1, o.p1, CodeAmb(o.d1))
-                e2 == Eval(P, o.route, o.d2, o.p2, CodeAmb(o.d2))
-            IN /\ exp' = [e1 |-> e1, e2 |-> e2]
-               \* non-trivial: at least one statement applied to the route in one of the evaluations
-               /\ NoteIf(e1.hits + e2.hits >= 1, <<o, Flat(P, o.d1), Flat(P, o.d2)>>)
+         /\ IF \A d \in Dirs : SeqToSet(P.asg[d].pols) \subseteq DOMAIN P.pols
+            THEN LET o == Trace[l].op
+                     e1 == Eval(P, o.route, o.d1, o.p1, CodeAmb(o.d1))
+                     e2 == Eval(P, o.route, o.d2, o.p2, CodeAmb(o.d2))
+                 IN /\ exp' = [e1 |-> e1, e2 |-> e2]
+                    \* non-trivial: at least one statement applied to the route in one of the evaluations
+                    /\ NoteIf(e1.hits + e2.hits >= 1, <<o, Flat(P, o.d1), Flat(P, o.d2)>>)
+            ELSE exp' = NoExp      \* an assignment lists a deleted policy (KF-C10-delpol-assigned): not judged
          /\ UNCHANGED <<P, kf, via>> /\ last' = Trace[l]
 
 TDump == /\ IsEvent("Dump")
@@ -98,7 +107,10 @@ TraceConstraint == Hwm(l)
 TraceAccepted == Accepted
 
 ---------------------------------------------------------------------------
-IsEval == last.ev = "Eval"
+(* an assignment never lists a policy that has been deleted (the model state only gets there when
+   the code ACCEPTED the deletion of an assigned policy, which it must refuse) *)
+NoDangling == \A d \in Dirs : SeqToSet(P.asg[d].pols) \subseteq DOMAIN P.pols
+IsEval == last.ev = "Eval" /\ NoDangling
 Op     == last.op
 Obs    == last.obs
 
@@ -131,6 +143,8 @@ C10_StoredUnchanged == IsEval => /\ StoredIs(Obs.stored0, Op.route)
 (* a valid configuration call returns; it does not crash the process *)
 C10_ConfigNoCrash == last.ev = "Cfg" => last.res # "panic"
 
+C10_ReadBack_NoDangling == last.ev = "Cfg" => NoDangling
+
 (* read-back: what the List / Get calls report equals the configured program *)
 HasRb == last.ev \in {"Cfg", "Dump"} /\ Has(last, "rb")
 Rb    == last.rb
@@ -159,7 +173,7 @@ RbAsgOn(loose) == \A x \in SeqToSet(Rb.asg) :
                     /\ x.pols = P.asg[x.dir].pols
                     /\ x.def \in P.asg[x.dir].def \cup (IF x.dir \in loose THEN {"none"} ELSE {})
 RbAsg == RbAsgOn({})
-C10_ReadBack == HasRb => RbSets /\ RbStmts /\ RbPols /\ RbAsg
+C10_ReadBack == (HasRb /\ NoDangling) => RbSets /\ RbStmts /\ RbPols /\ RbAsg
 
 ---------------------------------------------------------------------------
 (* situations of the recorded findings *)
@@ -223,6 +237,10 @@ C10_StoredUnchanged_KF ==
             /\ (Obs.r1.v = "accept" =>
                   \/ Obs.r1again = Obs.r1.attrs
                   \/ SitLargeAdd /\ [Obs.r1again EXCEPT !.large = <<>>] = [Obs.r1.attrs EXCEPT !.large = <<>>])
+
+(* KF-C10-delpol-assigned: DeletePolicy(all) of a policy assigned to the IMPORT direction is accepted
+   (kf.dead from then on) *)
+C10_ReadBack_NoDangling_KF == last.ev = "Cfg" => (NoDangling \/ kf.dead)
 
 (* KF-C10-delstmt-multi *)
 C10_ConfigNoCrash_KF == last.ev = "Cfg" => (last.res # "panic" \/ kf.dead)
